@@ -263,7 +263,7 @@ class Gen:
         name = f"s{len(self.stores)}"
         self.stores[name] = dict(
             flavour="norm" if self.coin(self.p["p_norm"]) else "plain",
-            cls=self.rng.choice(["A", "A", "B"]),
+            cls=self.rng.choice(["A", "A", "B", "L"]),
         )
         return name
 
